@@ -4,6 +4,7 @@
    was there keeps its order, its position, its faces and its basis.  Plain Coq. *)
 From Coq Require Import String ZArith Bool Arith List Lia.
 From SV Require Import Names NamesFacts ListFacts Rep Fresh Complex Atomic RepInv Shapes Incidence.
+From SV Require FiltProofs.
 Import ListNotations.
 Open Scope nat_scope.
 
@@ -241,5 +242,147 @@ Section AddHigher.
         rewrite (St k) by lia. simpl length.
         unfold idxk at 1. cbn [r_idx set_struct]. rewrite nth_app_snoc_nil.
         exact (getcol_app_col_new (zeros (length (nth k' (r_idx r2) [])) 0) (mark (nth k' (r_idx r2) []) fs)). }
-Show.
-Abort.
+    unfold bndk. rewrite Hcol, In_names_of_col_mark. split; [tauto|]. intros Hin. split; [|exact Hin].
+    destruct (check_faces_ok_orders r2 k fs Hchk t Hin) as (fo & fi & Af & Efo).
+    assert (fo = k') by lia. subst fo. destruct (proj1 (Pm t k' fi) Af) as [_ Hn]. eapply nth_error_In; eauto.
+  Qed.
+End AddHigher.
+
+Section AddVertex.
+  Variables (r2 : rep) (n : name) (h : handle).
+  Hypothesis Hinv : sinv r2.
+  Hypothesis Hnew : containsSimplex r2 n = false.
+
+  Let r' := add_final (add_struct r2 0) [] n h 0.
+  Let rz := add_struct r2 0.
+
+  Lemma v_rz_simp : r_simp rz = r_simp r2.
+  Proof. unfold rz, add_struct. destruct (r_nord r2 <=? 0); cbn [r_nord set_struct]; destruct (1 <? _); reflexivity. Qed.
+  Lemma v_rz_idx j : nth j (r_idx rz) [] = idxk r2 j.
+  Proof.
+    unfold rz, add_struct. destruct (r_nord r2 <=? 0); cbn [r_nord set_struct]; destruct (1 <? _); cbn [r_idx set_struct];
+      try apply nth_app_snoc_nil; reflexivity.
+  Qed.
+  Lemma v_rz_len : 0 < length (r_idx rz).
+  Proof.
+    pose proof (s_p r2 Hinv) as [K Pm St L].
+    unfold rz, add_struct. destruct (r_nord r2 <=? 0) eqn:G; cbn [r_nord set_struct]; destruct (1 <? _); cbn [r_idx set_struct];
+      rewrite ?app_length; simpl; try (apply Nat.leb_gt in G); lia.
+  Qed.
+
+  Lemma v_simp : r_simp r' = r_simp r2 ++ [(n, (0, length (idxk r2 0)))].
+  Proof.
+    unfold r', add_final. fold rz. cbn [r_simp]. rewrite v_rz_simp.
+    rewrite nth_upd_nth_same by apply v_rz_len. rewrite v_rz_idx, app_length. simpl.
+    replace (length (idxk r2 0) + 1 - 1) with (length (idxk r2 0)) by lia. reflexivity.
+  Qed.
+
+  Lemma v_idx j : idxk r' j = if j =? 0 then idxk r2 0 ++ [n] else idxk r2 j.
+  Proof.
+    unfold r', add_final, idxk. fold rz. cbn [r_idx]. rewrite nth_upd_nth.
+    pose proof v_rz_len as Hl. apply Nat.ltb_lt in Hl. rewrite Hl, andb_true_r, !v_rz_idx. reflexivity.
+  Qed.
+
+  Lemma v_bnd ks : ks < r_nord r2 -> bndk r' ks = if ks =? 1 then app_zero_row (bndk r2 1) else bndk r2 ks.
+  Proof.
+    intros Hks. pose proof Hinv as [P Lb Ls Sh].
+    unfold r', add_final, bndk. fold rz. cbn [r_bnd]. unfold rz, add_struct.
+    replace (r_nord r2 <=? 0) with false by (symmetry; apply Nat.leb_gt; lia).
+    destruct (1 <? r_nord r2) eqn:E; cbn [r_bnd set_struct].
+    - rewrite nth_upd_nth, Lb, E, andb_true_r. reflexivity.
+    - apply Nat.ltb_ge in E. replace (ks =? 1) with false by (symmetry; apply Nat.eqb_neq; lia). reflexivity.
+  Qed.
+
+  (* every column of every basis matrix gets one more (false) row *)
+  Lemma v_bas_col ks i : ks < r_nord r2 -> i < ncols (bask r2 ks) -> (ks = 0 -> 0 < nrows (bask r2 0)) ->
+    getcol i (bask r' ks) = getcol i (bask r2 ks) ++ [false].
+  Proof.
+    intros Hks Hi Hnz. pose proof Hinv as [P Lb Ls Sh].
+    unfold r', add_final, bask. fold rz. cbn [r_bas].
+    assert (Hn : r_nord rz = r_nord r2).
+    { unfold rz, add_struct. replace (r_nord r2 <=? 0) with false by (symmetry; apply Nat.leb_gt; lia). destruct (1 <? _); reflexivity. }
+    assert (Hb : r_bas rz = r_bas r2).
+    { unfold rz, add_struct. replace (r_nord r2 <=? 0) with false by (symmetry; apply Nat.leb_gt; lia). destruct (1 <? _); reflexivity. }
+    rewrite Hn, Hb.
+    set (bas1 := if 1 <? r_nord r2 then _ else r_bas r2).
+    assert (Hbas1 : forall j, j < r_nord r2 -> nth j bas1 emptymat = if 0 <? j then app_zero_row (bask r2 j) else bask r2 j).
+    { intros j Hj. unfold bas1. destruct (1 <? r_nord r2) eqn:E.
+      - rewrite (nth_map_default _ _ (0, emptymat)) by (rewrite combine_length, seq_length; lia).
+        rewrite nth_combine_seq by lia. cbn [fst snd]. change (0 + j) with j. apply Nat.ltb_lt in Hj. rewrite Hj, andb_true_r. reflexivity.
+      - apply Nat.ltb_ge in E. assert (j = 0) by lia. subst. reflexivity. }
+    assert (Hlb1 : length bas1 = r_nord r2).
+    { unfold bas1. destruct (1 <? r_nord r2); [|exact Ls]. rewrite map_length, combine_length, seq_length. lia. }
+    rewrite nth_set_nth, Hlb1.
+    destruct ks as [|ks].
+    - replace (0 <? r_nord r2) with true by (symmetry; apply Nat.ltb_lt; lia). simpl ((0 =? 0) && true). cbv iota.
+      rewrite (Hbas1 0 Hks). change (0 <? 0) with false. cbv iota. fold (bask r2 0).
+      specialize (Hnz eq_refl). replace (nrows (bask r2 0) =? 0) with false by (symmetry; apply Nat.eqb_neq; lia).
+      unfold getcol. cbn [mcols]. unfold ncols in Hi. rewrite app_nth1 by (now rewrite map_length).
+      rewrite (nth_indep _ [] (([] : list bool) ++ [false])) by (now rewrite map_length).
+      now rewrite (map_nth (fun c => c ++ [false])).
+    - simpl ((S ks =? 0) && _). cbv iota. rewrite (Hbas1 (S ks) Hks). simpl (0 <? S ks). cbv iota.
+      now apply getcol_app_zero_row.
+  Qed.
+
+  Theorem v_old s ks i : assoc s (r_simp r2) = Some (ks, i) ->
+    assoc s (r_simp r') = Some (ks, i) /\ faces r' s = faces r2 s /\ basisOf r' s = basisOf r2 s.
+  Proof.
+    intros As. pose proof Hinv as [P Lb Ls Sh]. pose proof P as [K Pm St L].
+    destruct (proj1 (Pm s ks i) As) as [Hks Hi].
+    assert (Hil : i < length (idxk r2 ks)) by (apply nth_error_Some; congruence).
+    assert (As' : assoc s (r_simp r') = Some (ks, i)) by (rewrite v_simp; now apply assoc_old).
+    destruct (Sh ks Hks) as [Hdb Hdn].
+    split; [exact As'|]. split.
+    - unfold faces. rewrite As', As. destruct ks as [|ks']; [reflexivity|].
+      specialize (Hdn ltac:(lia)). replace (S ks' - 1) with ks' in Hdn by lia.
+      fold (idxk r' ks'). fold (bndk r' (S ks')). rewrite v_idx, (v_bnd (S ks') Hks).
+      destruct ks' as [|ks''].
+      + simpl (1 =? 1). simpl (0 =? 0). cbv iota.
+        rewrite getcol_app_zero_row by (destruct Hdn as (_ & _ & Hc); lia).
+        apply names_of_col_snoc_false. apply (length_getcol _ _ _ _ Hdn). exact Hil.
+      + reflexivity.
+    - unfold basisOf. rewrite As', As. fold (idxk r' 0). fold (bask r' ks). rewrite v_idx. simpl (0 =? 0). cbv iota.
+      assert (Hnz : ks = 0 -> 0 < nrows (bask r2 0)).
+      { intros ->. destruct Hdb as (_ & Hr0 & _). lia. }
+      rewrite (v_bas_col ks i Hks) by (try exact Hnz; destruct Hdb as (_ & _ & Hc); lia).
+      apply names_of_col_snoc_false. fold (idxk r2 0). apply (length_getcol _ _ _ _ Hdb). exact Hil.
+  Qed.
+End AddVertex.
+
+(* ---------- the effect of a successful addSimplex ---------- *)
+Theorem addSimplex_effect r fs id attr r' n : sinv r -> addSimplex r fs id attr = (r', Ok n) ->
+  containsSimplex r n = false /\ NoDup fs /\
+  orderOf r' n = Ok (length fs - 1) /\ (forall t, In t (faces r' n) <-> In t fs) /\
+  (forall s, containsSimplex r s = true ->
+     orderOf r' s = orderOf r s /\ indexOf r' s = indexOf r s /\ faces r' s = faces r s /\ basisOf r' s = basisOf r s) /\
+  (forall s, containsSimplex r' s = containsSimplex r s || name_eqb s n).
+Proof.
+  intros Hinv H.
+  destruct (FiltProofs.addSimplex_contains r fs id attr r' n (s_p r Hinv) H) as [Hc Hall].
+  apply addSimplex_eq2 in H. destruct H as (r2 & h & Hs & Hc2 & Hnd & Hchk & Hk0 & Hk & ->).
+  assert (Hinv2 : sinv r2) by (eapply sinv_same_obs; eauto).
+  destruct (same_obs_queries r r2 Hs) as (Qo & Qi & Qf & _ & Qb & Qc & _).
+  split; [exact Hc|]. split; [exact Hnd|].
+  destruct (length fs - 1) as [|k'] eqn:Ek.
+  - (* a point *)
+    assert (fs = []) by (now apply Hk0). subst fs.
+    assert (An : assoc n (r_simp r2) = None) by (unfold containsSimplex in Hc2; destruct (assoc n (r_simp r2)); [discriminate | reflexivity]).
+    assert (As' : assoc n (r_simp (add_final (add_struct r2 0) [] n h 0)) = Some (0, length (idxk r2 0))).
+    { rewrite (v_simp r2 n h Hinv2). now apply assoc_new. }
+    split; [unfold orderOf; now rewrite As'|]. split.
+    { intros t. unfold faces. rewrite As'. simpl. tauto. }
+    split; [|exact Hall].
+    intros s Hcs. rewrite <- Qc in Hcs. unfold containsSimplex in Hcs.
+    destruct (assoc s (r_simp r2)) as [[ks i]|] eqn:As; [|discriminate].
+    destruct (v_old r2 n h Hinv2 s ks i As) as (A' & Hf & Hb).
+    rewrite <- Qo, <- Qi, <- Qf, <- Qb. unfold orderOf, indexOf. rewrite A', As. repeat split; assumption.
+  - rewrite add_hi_eq.
+    assert (E1 : S k' = S k') by reflexivity.
+    destruct (hi_new r2 fs n h (S k') k' Hinv2 E1 Hk Hc2 Hchk) as [As' Hfaces].
+    split; [unfold orderOf; now rewrite As'|]. split; [exact Hfaces|].
+    split; [|rewrite <- add_hi_eq; exact Hall].
+    intros s Hcs. rewrite <- Qc in Hcs. unfold containsSimplex in Hcs.
+    destruct (assoc s (r_simp r2)) as [[ks i]|] eqn:As; [|discriminate].
+    destruct (hi_old r2 fs n h (S k') k' Hinv2 E1 Hk s ks i As) as (A' & Hf & Hb).
+    rewrite <- Qo, <- Qi, <- Qf, <- Qb. unfold orderOf, indexOf. rewrite A', As. repeat split; assumption.
+Qed.
